@@ -26,7 +26,7 @@ from oracles import gen
 PROP = "C07"
 # utils/ lines executed on behalf of CandleManager (collapse_candles re-processing the whole candle list on every append)
 # are reported as their own group; set to False to judge the work done on behalf of indicators only
-REPORT_MANAGER_WORK = True
+REPORT_MANAGER_WORK = False  # C07 is about indicator code; candle-manager work is reported as an observation only
 ROOT = os.path.dirname(os.path.abspath(hexital.__file__))
 TARGET_FILES = (os.path.join(ROOT, "core", "indicator.py"),)
 TARGET_DIRS = tuple(os.path.join(ROOT, d) + os.sep for d in ("indicators", "analysis", "utils"))
